@@ -468,3 +468,18 @@ package pubsub
 //@        (exists x RPC :: passed(dyn:yield, 0)[x] && x.RPC.Control != nil && x.RPC.Control.Extensions == old(rpc.RPC.Control.Extensions))
 //@   ensures idontwant-carried: alltrue(dyn:yield) && old(rpc.RPC.Control) != nil && old(len(rpc.RPC.Control.Idontwant)) > 0 ==>
 //@        (exists x RPC :: passed(dyn:yield, 0)[x] && x.RPC.Control != nil && x.RPC.Control.Idontwant == old(rpc.RPC.Control.Idontwant))
+
+// notifySubs (C02/C05): a message is offered to each local subscription of its topic at most
+// once, only if the subscription's filter (if any) accepts it; a subscription whose buffer is
+// full is skipped and the miss is traced; subscriptions of other topics get nothing.
+//@ func (*PubSub).notifySubs
+//@   property C02
+//@   requires msg: msg != nil && p.mySubs != nil && (forall t string :: t in p.mySubs ==> p.mySubs[t] != nil)
+//@   noframe
+//@   loop 1 step one-offer-per-subscription: forall s *Subscription :: sent(s.ch) - iter(sent(s.ch)) <= ite(s == f, 1, 0) &&
+//@        (sent(s.ch) > iter(sent(s.ch)) ==> lastsent(s.ch) == msg)
+//@   loop 1 step miss-traced: calls((*pubsubTracer).UndeliverableMessage) - iter(calls((*pubsubTracer).UndeliverableMessage)) <= 1 &&
+//@        (calls((*pubsubTracer).UndeliverableMessage) > iter(calls((*pubsubTracer).UndeliverableMessage)) ==> sent(f.ch) == iter(sent(f.ch)) &&
+//@            lastarg((*pubsubTracer).UndeliverableMessage, 1) == msg)
+//@   loop 1 step filter-respected: sent(f.ch) > iter(sent(f.ch)) && f.filter != nil ==> calls(dyn:filter) == iter(calls(dyn:filter)) + 1 && lastret(dyn:filter)
+//@   loop 1 invariant own-topic: forall s *Subscription :: $visited[s] ==> s in p.mySubs[topicOf(msg)]
